@@ -123,3 +123,42 @@ Example C02_engine_example :
   (exists e, den 100 p = Ok e [2; 5; 2; 1; 3; 1]%Z) /\
   (exists st T, run 200 (init (print p)) [] = Done st T /\ text_of T = words_text [1; 3; 1; 2; 5; 2]%Z).
 Proof. vm_compute. repeat split; eexists; try eexists; repeat split. Qed.
+
+(* S1 on fragment F2 = F1 + undelimited parameters (Spec/MacroPrint.v, in_F2): \def\m#1..#n{body} with n <= 9, calls
+   \m{arg1}..{argn} with brace-balanced arguments (themselves words, groups, calls with arguments, conditionals,
+   parameterless definitions), #k anywhere in a body (inside groups, arguments of inner calls, branches, bodies of
+   parameterless inner definitions), bodies nested at most 49 deep (the reference evaluator substitutes with fuel 50);
+   not in F2: definitions with parameters inside a body (they need ##), ## itself, delimited parameters.
+   Same statement as for F1: the engine terminates, yields exactly the words den computes, closes all groups, and the
+   global frame holds for every macro the parameter text #1..#n and the printed body den's global frame holds.
+   The proof goes through Definition.invoke's pattern matcher on #1..#n / braced arguments (match_pattern, read_argument)
+   and expandDef: print (subst args body) = expandDef (print body) (map print args). *)
+Theorem C02_engine_simulates_F2 :
+  forall (fuel : nat) (p : list node) (e : env) (out : list Z),
+    in_F2 p = true -> den fuel p = Ok e out -> gdef_safe fuel p = true ->
+    exists (fuel' : nat) (st' : state) (T : list tok),
+      run fuel' (init (print p)) [] = Done st' T /\
+      text_of T = words_text (rev out) /\
+      ups st' = [] /\
+      (forall id, findm (mname id) (bottom st') = option_map mean_of (alookup id (last (frames e) []))) /\
+      (forall k, (forall id, k <> mname id) -> findm k (bottom st') = findm k base_frame).
+Proof. exact engine_simulates_F2. Qed.
+
+(* textual substitution at both levels: for a body of a macro with n <= 9 parameters and arguments without parameters,
+   expandDef applied to the printed body and the printed arguments gives the printing of MacroLang.subst's result *)
+Theorem C02_subst_print :
+  forall (args : list (list node)) (n : nat) (d : nat) (b : list node),
+    Forall (fun a => forallb fa_node a = true) args -> (n <= 9)%nat ->
+    forallb (fun y => fb_node n y d) b = true ->
+    expand_def (print b) false (None :: map Some (map print args)) = Some (print (subst (S d) args b)).
+Proof. intros args n d b Ha Hn Hb. exact (proj1 (subst_print args n Ha Hn d b Hb)). Qed.
+
+(* non-vacuity:  \def\A#1#2{W1 #2{#1}\iftrue #1\fi}\def\B{W9 }\A{W2 \B}{W3 }   ->   W1 W3 W2 W9 W2 W9 *)
+Example C02_engine_example_F2 :
+  let p := ([NDef false 1 2 None [NWord 1; NParam 2; NGroup [NParam 1]; NCond TTrue [NParam 1] None];
+            NDef false 2 O None [NWord 9];
+            NCall 1 None [[NWord 2; NCall 2 None []]; [NWord 3]]])%Z in
+  in_F2 p = true /\ in_F1 p = false /\ gdef_safe 100 p = true /\
+  (exists e, den 100 p = Ok e [9; 2; 9; 2; 3; 1]%Z) /\
+  (exists st T, run 200 (init (print p)) [] = Done st T /\ text_of T = words_text [1; 3; 2; 9; 2; 9]%Z).
+Proof. vm_compute. repeat split; eexists; try eexists; repeat split. Qed.
